@@ -141,6 +141,11 @@ func checkC04(c ParamCase) (f *report.Failure, nparams int, decidedBy string) {
 	// equivalence of the two texts
 	wi, err := sqlx.ParseWhere(sql)
 	if err != nil {
+		// an inline text PostgreSQL cannot read is C02's to report - unless the
+		// parameterized text is fine: then the two outputs are certainly not equivalent
+		if _, perr2 := sqlx.ParseWhere(bound); perr2 == nil {
+			return report.Failf("not-equivalent", "query %q (df=%q): the parameterized SQL %s with %#v is a predicate, but the inline SQL %s is not one PostgreSQL can read (%v)", text, c.DF, psql, params, sql, err), len(params), ""
+		}
 		return nil, len(params), "inline-unparsable(C02)"
 	}
 	wp, err := sqlx.ParseWhere(bound)
